@@ -18,7 +18,8 @@ def render_item(item):
         if item.get("choices") is None:
             text = gen.build(spec).to_string().decode("latin1")
         else:
-            text = gen.render_foreign(spec, item["choices"])
+            # latin1: characters U+0080..U+00FF travel raw (the transports decode bytes as Latin-1), others as references
+            text = gen.render_foreign(spec, item["choices"], ascii_only=not item.get("latin1"))
         text = item.get("gap", "") + text
         end = text.rindex(">") + 1
         return text, end, gen.expected_view(spec)
@@ -113,7 +114,7 @@ gaps = st.sampled_from(["", "", "\n", " ", "\n\n  ", "\t"])
 
 
 def msg_item(max_children=3, kinds=None):
-    return st.fixed_dictionaries(
+    plain = st.fixed_dictionaries(
         {
             "t": st.just("msg"),
             "spec": gen.msg_spec(kinds=kinds, max_children=max_children, max_cp=0x2FFF),
@@ -121,3 +122,13 @@ def msg_item(max_children=3, kinds=None):
             "gap": gaps,
         }
     )
+    latin1 = st.fixed_dictionaries(
+        {
+            "t": st.just("msg"),
+            "spec": gen.msg_spec(kinds=kinds, max_children=max_children, max_cp=0xFF),
+            "choices": gen.choices,
+            "gap": gaps,
+            "latin1": st.just(True),
+        }
+    )
+    return st.one_of(plain, plain, plain, latin1)
